@@ -73,6 +73,8 @@ def step(v, t, fmt_text):
             raise Invalid('sha256 takes no argument')
         return hashlib.sha256(text(v).encode()).hexdigest()
     if cmd == 'flags':
+        if len(parts) != 1:
+            raise Invalid('flags takes no argument')
         return step(step(v, 'tolist:=', fmt_text), 'prefix:--', fmt_text)
     if cmd == 'flatten':
         if len(parts) != 1:
